@@ -8,7 +8,7 @@ from fractions import Fraction
 import numpy as np
 
 from .common import Run, bool_s, frac_s, guarded, list_s, run_driver
-from .c04 import compositions, ints, tiling_tok
+from .c04 import canon, compositions, ints, respell, sequence_vs_fresh, tiling_tok
 
 META = {
     "claimed": True,
@@ -830,6 +830,7 @@ def crs_kinds_stream(R: Run, geom, GeoBox, GeoboxTiles, Affine):
     n_q = R.pick(2, 12)
     for region in REGIONS:
         crs, _box, _res, others = region
+        crs_churn(rng, 30)
         gbt = mk(region)
         rects = tile_rects(gbt)
         held = []
@@ -1104,6 +1105,305 @@ def curved_queries(R: Run, geom, GeoBox, GeoboxTiles, Affine):
                      sig=f"curved-extra|{crs}")
 
 
+
+# ------------------------------------------------------------------ long-lived process: CRS churn
+def _crs_specs():
+    """a few hundred distinct CRS definitions: every UTM zone (several datums), national grids, custom proj strings"""
+    specs = [f"EPSG:{c}" for c in list(range(32601, 32661)) + list(range(32701, 32761))]
+    specs += [f"EPSG:{c}" for c in list(range(25828, 25839)) + list(range(26901, 26924)) + list(range(32201, 32261))]
+    specs += [f"EPSG:{c}" for c in (27700, 2154, 3035, 3577, 28355, 28356, 2193, 3111, 5070, 3005, 3347, 3978, 2056, 21781,
+                                   31467, 3006, 3067, 5514, 2180, 3763, 2100, 23030, 3112, 7855, 7856, 6933, 8857, 3832,
+                                   3413, 3031, 3976, 4283, 4269, 4258, 4612, 4326, 3857, 4674, 4148, 4167)]
+    specs += [f"+proj=tmerc +lat_0=0 +lon_0={lon} +k=0.9996 +x_0=500000 +y_0={y0} +datum=WGS84 +units=m +no_defs"
+              for lon in range(-177, 180, 5) for y0 in (0, 10000000)]
+    specs += [f"+proj=laea +lat_0={lat} +lon_0={lon} +datum=WGS84 +units=m +no_defs" for lat in (-60, -20, 30, 55)
+              for lon in (-100, -30, 20, 80, 140)]
+    return specs
+
+
+def crs_churn(rng, n=None):
+    """what a long running process does: normalise many distinct CRSs through odc.geo.crs, drop them, collect garbage"""
+    import gc
+
+    from odc.geo.crs import CRS
+
+    specs = _crs_specs()
+    if n is not None:
+        specs = rng.sample(specs, min(n, len(specs)))
+    k = 0
+    for sp in specs:
+        try:
+            c = CRS(sp)
+            _ = (c.epsg, c.units, str(c))
+            k += 1
+        except Exception:  # pylint: disable=broad-except
+            pass  # definition not in this PROJ database
+    gc.collect()
+    return k
+
+
+def _utm_like_query(spec):
+    """a 200 km box that is valid in transverse-mercator-like CRSs with a 500 km false easting"""
+    south = ("+y_0=10000000" in spec) or (spec.startswith("EPSG:327"))
+    y0 = 8_000_000 if south else 1_000_000
+    return (400_000, y0, 600_000, y0 + 200_000)
+
+
+def crs_churn_stream(R: Run, geom, GeoBox, GeoboxTiles, Affine):
+    """Cross-CRS answers must not depend on how many other CRSs the process has seen.  After normalising several hundred
+    CRSs (twice, with gc in between) a world raster is queried with a small box in each of ~250 transverse-mercator CRSs
+    and dependency graphs from UTM rasters are built; the reference uses a fresh pyproj Transformer made from the CRS
+    definition itself (never odc.geo.crs): must-tiles (positive overlap with the polygon through the projected vertices)
+    have to be returned, and nothing that does not touch it."""
+    import gc
+
+    import shapely
+    import shapely.geometry as sg
+    from pyproj import CRS as PCRS
+    from pyproj import Transformer
+
+    rng = R.rng
+    n_seen = crs_churn(rng)
+    R.count("crs-churn:normalised", n_seen)
+    worlds = []
+    for (crs, box, res, tile) in (("EPSG:3857", (-20e6, -10e6, 20e6, 10e6), 100_000, (10, 10)),
+                                  ("EPSG:4326", (-180, -85, 180, 85), 1.0, (9, 10))):
+        gb = GeoBox.from_bbox(geom.BoundingBox(*box, crs), resolution=res)
+        gbt = GeoboxTiles(gb, tile)
+        rects = tile_rects(gbt)
+        keys = list(rects)
+        A = gb.affine
+        xs0 = np.array([A.c + A.a * rects[k][2] for k in keys])
+        xs1 = np.array([A.c + A.a * rects[k][3] for k in keys])
+        ys0 = np.array([A.f + A.e * rects[k][1] for k in keys])
+        ys1 = np.array([A.f + A.e * rects[k][0] for k in keys])
+        worlds.append((crs, gbt, keys, shapely.box(xs0, ys0, xs1, ys1), abs(A.a * A.e)))
+    # near-global rasters whose footprint, padded by the 2 pixels grid_intersect adds, stays inside the CRS's valid area
+    hemis = [GeoboxTiles(GeoBox.from_bbox(geom.BoundingBox(-19e6, -9e6, 19e6, 9e6, "EPSG:3857"), resolution=100_000), (10, 10)),
+             GeoboxTiles(GeoBox.from_bbox(geom.BoundingBox(-175, -80, 175, 80, "EPSG:4326"), resolution=1.0), (9, 10))]
+    tm = [sp for sp in _crs_specs() if "+proj=tmerc" in sp or sp.startswith(("EPSG:326", "EPSG:327", "EPSG:258", "EPSG:269", "EPSG:322"))]
+    for round_no in range(2):
+        order = tm[:]
+        rng.shuffle(order)
+        if R.quick:
+            order = order[: 170]
+        for i, sp in enumerate(order):
+            if i % 40 == 39:
+                crs_churn(rng, 60)
+            try:
+                pc = PCRS.from_user_input(sp)
+            except Exception:  # pylint: disable=broad-except
+                continue
+            bbox = _utm_like_query(sp)
+            wcrs, gbt, keys, boxes, pixarea = worlds[(i + round_no) % 2]
+            case = {"query_crs": sp, "bbox": list(bbox), "raster": wcrs, "round": round_no, "seen_before": n_seen}
+            q = geom.box(*bbox, sp) if i % 3 else geom.BoundingBox(*bbox, sp)
+            got = guarded(lambda: set(gbt.tiles(q)))
+            if isinstance(got, str):
+                R.oracle(False, "tiles-query-raises", case, f"tiles() raised {got}", sig="churn-raises")
+                continue
+            tr = Transformer.from_crs(pc, PCRS.from_user_input(wcrs), always_xy=True)   # fresh, straight from pyproj
+            x0, y0, x1, y1 = bbox
+            px, py = tr.transform([x0, x0, x1, x1], [y0, y1, y1, y0])
+            if not all(map(math.isfinite, list(px) + list(py))):
+                continue
+            chord = sg.Polygon(list(zip(px, py)))
+            if not chord.is_valid or chord.area == 0 or (max(px) - min(px)) > 90 * (1 if wcrs == "EPSG:4326" else 111_000):
+                continue  # crosses the antimeridian in the target CRS
+            area = shapely.area(shapely.intersection(boxes, chord)) / pixarea
+            dist = shapely.distance(boxes, chord)
+            must = {keys[j] for j in np.nonzero(area > 1e-6)[0]}
+            may = {keys[j] for j in np.nonzero(dist <= 1e-9 * math.sqrt(pixarea))[0]}
+            R.oracle(must <= got, "tiles-geom-misses-tile", case,
+                     f"after {n_seen}+ CRSs in the process: tiles {sorted(got)} miss {sorted(must - got)}", sig="churn|miss")
+            R.oracle(got <= may, "tiles-geom-returns-disjoint-tile", case,
+                     f"after {n_seen}+ CRSs in the process: tiles {sorted(got - may)} are away from the query", sig="churn|extra")
+        gc.collect()
+        # dependency graphs from UTM rasters of random zones to the world rasters, judged by dense independent sampling
+        for _k in range(R.pick(3, 12)):
+            zone = rng.randint(1, 60)
+            south = rng.random() < 0.5
+            code = f"EPSG:{(32700 if south else 32600) + zone}"
+            y0 = rng.choice([7_000_000, 8_000_000]) if south else rng.choice([1_000_000, 3_000_000, 5_000_000])
+            ugb = GeoBox.from_bbox(geom.BoundingBox(300_000, y0, 700_000, y0 + 400_000, code), resolution=2000)
+            ugt = GeoboxTiles(ugb, (70, 90))
+            for gbt, wkey in ((hemis[0], None), (hemis[1], None), (worlds[0][1], GLOBAL_RASTER_KEY), (worlds[1][1], GLOBAL_RASTER_KEY)):
+                if wkey is not None and R.match_known(wkey) is None:
+                    R.count("skipped:global-raster-deps(no known-finding entry)")
+                    continue
+                for dst, src in ((ugt, gbt), (gbt, ugt)):
+                    dense_dep_oracle(R, dst, src, {"dst": str(dst.base.crs), "src": str(src.base.crs), "round": round_no,
+                                                   "dst_aff": aff_s(dst.base.affine), "dst_shape": list(dst.base.shape),
+                                                   "src_aff": aff_s(src.base.affine), "src_shape": list(src.base.shape),
+                                                   "seen_before": n_seen}, sig="churn|deps", key=wkey)
+        n_seen += crs_churn(rng)
+
+
+# a raster covering (nearly) the whole valid area of its CRS: grid_intersect pads its footprint by 2 pixels before going to
+# EPSG:4326, the padded outline leaves the valid area, wraps and becomes an invalid polygon -> dependencies are lost.
+# Evaluated only while known_findings.json carries this key.
+GLOBAL_RASTER_KEY = "grid-intersect-global-raster"
+
+
+def dense_dep_oracle(R: Run, dst, src, case, sig, k=6, restrict=None, key=None):
+    """missing-dependency oracle by dense independent sampling: a k x k lattice of points inside every destination tile
+    is mapped into the source raster with a fresh pyproj Transformer; a point landing well inside the source raster and
+    well inside a source tile (margin = 3 px + twice the sag of the tile's projected edges, because the code maps
+    the four tile corners only) requires that source tile among the tile's dependencies.  Raising is its own key."""
+    from pyproj import CRS as PCRS
+    from pyproj import Transformer
+
+    deps = guarded(lambda: dst.grid_intersect(src))
+    if isinstance(deps, str):
+        R.oracle(False, key or "grid-intersect-raises", case, f"grid_intersect raised {deps}", sig=sig + "|raises")
+        return None
+    tr = Transformer.from_crs(PCRS.from_user_input(str(dst.base.crs)), PCRS.from_user_input(str(src.base.crs)), always_xy=True)
+    DA, SA = dst.base.affine, src.base.affine
+    invS = ~SA
+    drect = tile_rects(dst)
+    keys = [kk for kk, (y0, y1, x0, x1) in drect.items() if y1 > y0 and x1 > x0]
+    if restrict is not None:
+        keys = [kk for kk in keys if restrict(kk)]
+    if not keys:
+        return deps
+    R_ = np.array([drect[kk] for kk in keys], dtype="float64")          # y0 y1 x0 x1
+    f = (np.arange(k) + 0.5) / k
+    fy, fx = np.meshgrid(f, f, indexing="ij")
+    PX = R_[:, 2][:, None] + (R_[:, 3] - R_[:, 2])[:, None] * fx.ravel()[None, :]
+    PY = R_[:, 0][:, None] + (R_[:, 1] - R_[:, 0])[:, None] * fy.ravel()[None, :]
+
+    def to_src(px, py):
+        wx, wy = DA.a * px + DA.b * py + DA.c, DA.d * px + DA.e * py + DA.f
+        sx, sy = tr.transform(wx, wy)
+        sx, sy = np.asarray(sx, dtype="float64"), np.asarray(sy, dtype="float64")
+        return invS.a * sx + invS.b * sy + invS.c, invS.d * sx + invS.e * sy + invS.f
+
+    SX, SY = to_src(PX, PY)
+    # sag of the four edges of each tile (corner-only reprojection in the code)
+    cx = np.stack([R_[:, 2], R_[:, 3], R_[:, 3], R_[:, 2]], axis=1)
+    cy = np.stack([R_[:, 0], R_[:, 0], R_[:, 1], R_[:, 1]], axis=1)
+    ax_, ay_ = to_src(cx, cy)
+    mx_, my_ = to_src((cx + np.roll(cx, -1, axis=1)) / 2, (cy + np.roll(cy, -1, axis=1)) / 2)
+    sag = np.hypot(mx_ - (ax_ + np.roll(ax_, -1, axis=1)) / 2, my_ - (ay_ + np.roll(ay_, -1, axis=1)) / 2).max(axis=1)
+    mg = 3 + 2 * np.where(np.isfinite(sag), sag, np.inf)
+    chy, chx = [int(v) for v in src.chunks[0]], [int(v) for v in src.chunks[1]]
+    oy, ox = np.concatenate([[0], np.cumsum(chy)]), np.concatenate([[0], np.cumsum(chx)])
+    sny, snx = int(oy[-1]), int(ox[-1])
+    miss = []
+    with np.errstate(invalid="ignore"):
+        ok = np.isfinite(SX) & np.isfinite(SY) & (SX >= mg[:, None]) & (SX <= snx - mg[:, None]) & (SY >= mg[:, None]) & (SY <= sny - mg[:, None])
+    ti = np.clip(np.searchsorted(oy, np.where(ok, SY, 0), "right") - 1, 0, len(chy) - 1)
+    tj = np.clip(np.searchsorted(ox, np.where(ok, SX, 0), "right") - 1, 0, len(chx) - 1)
+    with np.errstate(invalid="ignore"):
+        deep = ok & (SY >= oy[ti] + mg[:, None]) & (SY <= oy[ti + 1] - mg[:, None]) & (SX >= ox[tj] + mg[:, None]) & (SX <= ox[tj + 1] - mg[:, None])
+    n_req = 0
+    for a, kk in enumerate(keys):
+        idx = np.nonzero(deep[a])[0]
+        if not len(idx):
+            continue
+        have = set(deps.get(kk, []))
+        need = {(int(ti[a, b]), int(tj[a, b])) for b in idx}
+        n_req += len(need)
+        for s_ in need - have:
+            b = next(b for b in idx if (int(ti[a, b]), int(tj[a, b])) == s_)
+            miss.append((kk, s_, round(float(SY[a, b]), 1), round(float(SX[a, b]), 1), round(float(mg[a]), 1)))
+    R.oracle(not miss, key or "grid-intersect-misses-dependency", case,
+             f"{len(miss)} of {n_req} required (dst tile, src tile) links missing; e.g. (dst, src, src row, src col, margin px) "
+             f"{miss[:5]}", sig=sig, trivial=n_req == 0)
+    return deps
+
+
+# ------------------------------------------------------------------ large cross-CRS rasters (edge curvature >> 1 px)
+LARGE_PAIRS = [
+    # projected raster: (crs, bbox, resolution, tile)   lon/lat raster: (bbox, resolution, tile)
+    (("EPSG:3577", (-2_000_000, -5_000_000, 2_200_000, -1_000_000), 1000, (500, 500)), ((100, -50, 165, -5), 0.05, (25, 25))),
+    (("EPSG:3577", (-1_900_000, -4_800_000, 2_100_000, -1_100_000), 500, (1000, 900)), ((105, -47, 160, -8), 0.04, (40, 32))),
+    (("EPSG:5070", (-2_300_000, 300_000, 2_200_000, 3_200_000), 1000, (512, 512)), ((-130, 20, -62, 53), 0.05, (30, 30))),
+    (("EPSG:3035", (2_500_000, 1_400_000, 6_500_000, 5_400_000), 1000, (500, 640)), ((-25, 30, 50, 72), 0.05, (32, 25))),
+    (("EPSG:3857", (12_300_000, -5_000_000, 17_000_000, -900_000), 1000, (512, 700)), ((108, -42, 155, -6), 0.03, (40, 40))),
+    (("EPSG:32755", (-600_000, 5_500_000, 1_600_000, 9_500_000), 500, (800, 640)), ((133, -41, 161, -4), 0.02, (50, 50))),
+    (("EPSG:32633", (-400_000, 4_000_000, 1_400_000, 7_800_000), 400, (900, 750)), ((2, 35, 30, 71), 0.02, (64, 50))),
+]
+
+
+def large_cross_crs(R: Run, geom, GeoBox, GeoboxTiles, Affine):
+    """Continental rasters (thousands of pixels per side) in Albers / LAEA / mercator / UTM against lon/lat rasters: the
+    edges of the footprints curve by many pixels.  Both directions, dense independent sampling oracle."""
+    rng = R.rng
+    pairs = LARGE_PAIRS[:]
+    rng.shuffle(pairs)
+    for (pcrs, pbox, pres, ptile), (gbox_, gres, gtile) in pairs[: R.pick(2, len(pairs))]:
+        gcrs = rng.choice(["EPSG:4326", "EPSG:4326", "EPSG:4283" if pcrs in ("EPSG:3577", "EPSG:32755", "EPSG:3857") else "EPSG:4326"])
+        proj = GeoboxTiles(GeoBox.from_bbox(geom.BoundingBox(*pbox, pcrs), resolution=pres), ptile)
+        geo = GeoboxTiles(GeoBox.from_bbox(geom.BoundingBox(*gbox_, gcrs), resolution=gres), gtile)
+        for dst, src, name in ((geo, proj, "lonlat<-proj"), (proj, geo, "proj<-lonlat")):
+            case = {"dst": str(dst.base.crs), "src": str(src.base.crs), "dst_shape": list(dst.base.shape),
+                    "src_shape": list(src.base.shape), "dst_aff": aff_s(dst.base.affine), "src_aff": aff_s(src.base.affine),
+                    "dst_tile": list(dst.roi.tile_shape((0, 0)).yx), "src_tile": list(src.roi.tile_shape((0, 0)).yx)}
+            dense_dep_oracle(R, dst, src, case, sig=f"large-cross|{name}|{pcrs}", k=R.pick(4, 6))
+
+
+
+# ------------------------------------------------------------------ one instance, a sequence of calls  vs  a fresh instance per call
+def stateful_sequences(R: Run, geom, GeoBox, GeoboxTiles, Affine):
+    """queries, clips and dependency graphs asked repeatedly of the SAME GeoboxTiles objects (arguments permuted,
+    duplicated, sub-/supersets, other container types, other CRS spellings) must answer like fresh objects"""
+    rng = R.rng
+    reg, var = axis_specs()
+    BoundingBox = geom.BoundingBox
+    for it in range(R.pick(80, 800)):
+        kind = rng.choice("rv")
+        pool = [v for v in (reg if kind == "r" else var) if (v[0] if kind == "r" else sum(v)) >= 2]
+        spec = (kind, rng.choice(pool), rng.choice(pool))
+        res = rng.choice([1, 2, 0.5])
+        A = Affine(res, 0, rng.randint(-20, 20) * res, 0, -res, rng.randint(-20, 20) * res)
+        ospec = (rng.choice("rv"),)
+        opool = [v for v in (reg if ospec[0] == "r" else var) if (v[0] if ospec[0] == "r" else sum(v)) >= 2]
+        ospec = (ospec[0], rng.choice(opool), rng.choice(opool))
+        B = Affine(res, 0, A.c + res * rng.randint(-3, 5), 0, -res, A.f - res * rng.randint(-3, 5))
+
+        def mk():
+            return mk_gbt(GeoBox, GeoboxTiles, spec, A)
+
+        def mk_other():
+            return mk_gbt(GeoBox, GeoboxTiles, ospec, B)
+
+        g0 = mk()
+        ny, nx = g0.base.shape
+        Ty, Tx = g0.shape.yx
+        calls = []
+        sel = [(rng.randint(0, Ty - 1), rng.randint(0, Tx - 1)) for _ in range(rng.randint(1, 3))]
+        for _k in range(rng.randint(6, 12)):
+            r = rng.random()
+            xs = sorted(rng.randint(-4, 4 * nx + 4) / 4 for _ in range(2))
+            ys = sorted(rng.randint(-4, 4 * ny + 4) / 4 for _ in range(2))
+            if r < 0.25:
+                bb = BoundingBox(xs[0], ys[0], xs[1], ys[1])
+                calls.append((f"tiles(pix {canon(bb)})", lambda g, bb=bb: list(g.tiles(bb))))
+                calls.append((f"range_from_bbox({canon(bb)})", lambda g, bb=bb: g.range_from_bbox(bb)))
+            elif r < 0.45:
+                w = [A * (x, y) for x in xs for y in ys]
+                wb = BoundingBox(min(p_[0] for p_ in w), min(p_[1] for p_ in w), max(p_[0] for p_ in w), max(p_[1] for p_ in w),
+                                 rng.choice(["EPSG:3857", "epsg:3857", 3857]))
+                q = wb if rng.random() < 0.5 else wb.polygon
+                calls.append((f"tiles(world {canon(wb)} {'bbox' if q is wb else 'poly'})", lambda g, q=q: list(g.tiles(q))))
+            elif r < 0.7:
+                sel = respell(rng, sel)
+                s_ = sel
+                calls.append((f"clip({canon(s_)})", lambda g, s_=s_: g.clip(s_)))
+                bb = BoundingBox(0, 0, 1.5, 1.5)
+                calls.append((f"clip({canon(s_)})[0].tiles", lambda g, s_=s_, bb=bb: list(g.clip(s_)[0].tiles(bb))))
+            elif r < 0.85:
+                calls.append(("grid_intersect(other)", lambda g: g.grid_intersect(mk_other())))
+                calls.append(("other.grid_intersect(self)", lambda g: mk_other().grid_intersect(g)))
+            else:
+                a_, c_ = rng.randint(0, Ty - 1), rng.randint(0, Tx - 1)
+                roi = (slice(a_, rng.randint(a_ + 1, Ty)), slice(c_, rng.randint(c_ + 1, Tx)))
+                calls.append((f"crop[{canon(roi)}].grid_intersect(self)", lambda g, roi=roi: g.crop[roi].grid_intersect(g)))
+                calls.append((f"grid_intersect(crop[{canon(roi)}])", lambda g, roi=roi: g.grid_intersect(g.crop[roi])))
+        sequence_vs_fresh(R, mk, calls, {"spec": spec, "A": aff_s(A), "ospec": ospec, "B": aff_s(B)}, "GeoboxTiles")
+
+
 def _maybe_int_exact(x: Fraction, tol: Fraction):
     t = Fraction(math.trunc(x))
     part = x - t
@@ -1183,8 +1483,14 @@ def run(R: Run):
     geom_queries(R, geom, GeoBox, GeoboxTiles, Affine)
     snap_cases(R, Affine)
     grid_pairs(R, geom, GeoBox, GeoboxTiles, Affine)
+    stateful_sequences(R, geom, GeoBox, GeoboxTiles, Affine)
+    # from here on the process has seen several hundred CRSs (long-lived service); more churn is interleaved
+    crs_churn_stream(R, geom, GeoBox, GeoboxTiles, Affine)
     crs_kinds_stream(R, geom, GeoBox, GeoboxTiles, Affine)
+    crs_churn(R.rng, 80)
     curved_queries(R, geom, GeoBox, GeoboxTiles, Affine)
+    crs_churn(R.rng, 80)
+    large_cross_crs(R, geom, GeoBox, GeoboxTiles, Affine)
     R.exhaustive = False
     R.assumptions.append("shapely `disjoint` / `intersection` and pyproj are trusted oracles and model parameters")
     R.assumptions.append("tolerances of snap_affine / is_affine_st are passed as the exact rational value of the doubles")
